@@ -190,10 +190,17 @@ def app_from(ns, r, marks=None):
                     return await response_from(ns, r, marks)(scope, receive, send)
         return Lazy()
     if kind == "view":
+        def abort_if_asked():
+            # the view gives up with the library's own exception (abort(), a failed request.json ...): status, headers and content are the view's choice
+            if r.get("aborts") is not None:
+                from baize.exceptions import HTTPException
+                a = r["aborts"]
+                raise HTTPException(a["status"], a.get("headers"), a.get("content"))
         if name == "wsgi":
             def view(request):
                 if marks is not None:
                     marks["invoked"] = marks.get("invoked", 0) + 1
+                abort_if_asked()
                 resp = response_from(ns, r["response"], marks)
                 if r.get("reads_body"):
                     resp.headers["x-body-seen"] = str(len(request.body))  # the view reads the request body
@@ -202,6 +209,7 @@ def app_from(ns, r, marks=None):
             async def view(request):
                 if marks is not None:
                     marks["invoked"] = marks.get("invoked", 0) + 1
+                abort_if_asked()
                 resp = response_from(ns, r["response"], marks)
                 if r.get("reads_body"):
                     resp.headers["x-body-seen"] = str(len(await request.body))
